@@ -389,3 +389,8 @@ def run(ctx):
     ctx.alias = {"C01.n": "C05.f"}
     ctx.run_clause("C05.f", C01.c01n_join)
     ctx.alias = {}
+    # un-registering a cancelled call must leave the recorded dependencies exactly as if the call had never been made
+    # (same set, same order): C01.r's CalleeOrder rules, evaluated here as C05.g
+    ctx.alias = {"C01.r": "C05.g"}
+    ctx.run_clause("C05.g", C01.c01r)
+    ctx.alias = {}
